@@ -116,6 +116,12 @@ func (f *fper) hashValue(h uint64, v reflect.Value, depth int) uint64 {
 		}
 		return f.hashValue(hashBytes(h, []byte(v.Elem().Type().String())), v.Elem(), depth+1)
 	case reflect.Struct:
+		if pp := v.Type().PkgPath(); pp == "sync" || pp == "sync/atomic" {
+			// synchronisation objects are not data: their words change under the runtime's
+			// own rules (a Pool is emptied by the garbage collector); the simulator models
+			// them in simrt instead
+			return hashU(h, 0x73)
+		}
 		for i := 0; i < v.NumField(); i++ {
 			h = f.hashValue(h, v.Field(i), depth+1)
 		}
@@ -273,6 +279,11 @@ type baton struct {
 	trace    []Switch
 	onSwitch func(from int)
 	maxSteps int
+	// "sync" strategy: after a synchronisation operation (unlock, pool put/get, once,
+	// atomic) the baton is handed on a few yields later with probability 1/2: the windows
+	// that matter open right behind such operations.
+	syncBias      bool
+	syncCountdown int
 }
 
 func (b *baton) runnable() []int {
@@ -321,6 +332,16 @@ func (b *baton) choose(curDone bool) int {
 			}
 		}
 		return best
+	}
+	if b.syncCountdown > 0 && cur >= 0 {
+		b.syncCountdown--
+		if b.syncCountdown == 0 && len(run) > 1 {
+			for {
+				if r := run[b.rng.Intn(len(run))]; r != cur {
+					return r
+				}
+			}
+		}
 	}
 	if cur >= 0 && !b.rng.Chance(1, b.switchP) {
 		return cur
@@ -508,12 +529,18 @@ func runC14(c *Ctx) *Replay {
 	var tasks []TaskSpec
 	for i := 0; i < nt; i++ {
 		ts := TaskSpec{Op: []string{"generate", "generate", "generate", "validate", "format", "readfile"}[r.Intn(6)], Mask: r.Intn(32), Combined: r.Bool(), MapOrder: drawOrder(r)}
+		if r.Bool() {
+			ts.Repeat = r.Range(1, 2)
+		}
 		tasks = append(tasks, ts)
 	}
-	strategy := []string{"random", "pct", "random"}[r.Intn(3)]
+	strategy := []string{"random", "pct", "random", "sync"}[r.Intn(4)]
 	sc.Extra["strategy"] = strategy
 	sc.Extra["seed"] = fmt.Sprint(r.Uint64())
 	sc.Extra["switch_p"] = fmt.Sprint([]int{2, 8, 64, 512}[r.Intn(4)])
+	if strategy == "sync" {
+		sc.Extra["switch_p"] = fmt.Sprint([]int{64, 512, 4096}[r.Intn(3)])
+	}
 	sc.Extra["pct_d"] = fmt.Sprint(r.Range(1, 3))
 	sc.Tasks = tasks
 	c.Log("C14", p.ID, withImport, spare, strategy)
@@ -714,7 +741,7 @@ func execConcurrent(n *Node, sc *Scenario) *Violation {
 	spareBefore := map[string]uint64{}
 	spareSlots(reflect.ValueOf(*shared), "File", spareBefore, 0)
 	globBefore := globalsSnapshot()
-	b := &baton{back: make(chan int), maxSteps: 20*est + 200_000}
+	b := &baton{back: make(chan int), maxSteps: 60*est + 200_000}
 	seed := uint64(atoiDefault(sc.Extra["seed"], 1))
 	b.rng = prng.New(seed)
 	b.switchP = int(atoiDefault(sc.Extra["switch_p"], 8))
@@ -722,6 +749,8 @@ func execConcurrent(n *Node, sc *Scenario) *Violation {
 		b.tasks = append(b.tasks, &batonTask{id: i, resume: make(chan struct{}), ts: simrt.NewTaskState(i, ts.MapOrder.Strategy, ts.MapOrder.Seed)})
 	}
 	switch sc.Extra["strategy"] {
+	case "sync":
+		b.syncBias = true
 	case "plan":
 		b.plan = append([]Switch(nil), sc.Switches...)
 		if len(b.plan) > 0 {
@@ -781,11 +810,27 @@ func execConcurrent(n *Node, sc *Scenario) *Violation {
 		if b.cur != nil {
 			b.onSwitch(b.cur.id)
 		}
+		if b.syncBias && b.syncCountdown == 0 && b.rng.Chance(1, 2) {
+			b.syncCountdown = 1 + b.rng.Intn(8)
+		}
 	}
 	var fns []func() taskResult
 	for i := range sc.Tasks {
 		ts := sc.Tasks[i]
-		fns = append(fns, func() taskResult { return runTask(ts, shared, text) })
+		ref := &refs[i]
+		fns = append(fns, func() taskResult {
+			var first taskResult
+			for k := 0; k <= ts.Repeat; k++ {
+				r := runTask(ts, shared, text)
+				if k == 0 {
+					first = r
+				}
+				if compareResult("concurrent", ts, ref, &r) != nil {
+					return r // the first call of this caller that went wrong
+				}
+			}
+			return first
+		})
 	}
 	b.run(fns)
 	simrt.SyncHook = nil
